@@ -61,6 +61,9 @@ NTREES = {'quick': 24, 'thorough': 600}
 
 def units(tier, seed):
     u = [{'k': 'fp', 'i': i} for i in range(NTREES[tier])]
+    # ... of which a few always hold a stray UNIX socket (an object that cannot be opened)
+    for i in range(3 if tier == 'quick' else 30):
+        u.append({'k': 'fp', 'i': 5000 + i, 'force': 'stray-socket'})
     for i in range(3 if tier == 'quick' else 40):
         u.append({'k': 'strace', 'i': i})
     for i in range(40 if tier == 'quick' else 1200):
@@ -81,12 +84,14 @@ def setup_worker(ctx):
     datetime.datetime.strptime('2020-01-01T00:00:00Z', '%Y-%m-%dT%H:%M:%SZ')
 
 
-def build_tree(rng, root):
+def build_tree(rng, root, force=None):
     """Consistent tree; every second one gets one stray file (the object whose
     failing access must not be mistaken for 'absent')."""
     classes = []
     r = rng.random()
-    if r < 0.25:
+    if force:
+        classes = [force]
+    elif r < 0.25:
         classes = ['stray']
     elif r < 0.4:
         # a stray FIFO or UNIX socket: a failing access must not make it "absent"
@@ -189,10 +194,12 @@ def run_fp(u, ctx):
     with common.Scratch('vf-c06-') as d:
         root = os.path.join(d, 't')
         try:
-            tcase, layout, info = build_tree(rng, root)
+            tcase, layout, info = build_tree(rng, root, u.get('force'))
         except RuntimeError:
             ctx.discarded('generator')
             return
+        if u.get('force'):
+            ctx.count('fp_forced:' + u['force'])
         subs = [d for d in info['mdirs'] if d]
         sub = subs[0] if subs else None
         for op in OPS + CLI_OPS:
@@ -230,7 +237,7 @@ def run_fp(u, ctx):
                     else:
                         es = errs
                     for err in es:
-                        case = {'kind': 'fp', 'tree': u['i'], 'op': op,
+                        case = {'kind': 'fp', 'force': u.get('force'), 'tree': u['i'], 'op': op,
                                 'class': klass, 'n': n, 'errno': err,
                                 'gen_seed': ctx.seed}
                         with audit.Recording(root) as rec:
@@ -301,7 +308,7 @@ def run_createfresh(ctx, root, d, u):
         for klass, total in fp0.counts.items():
             for n in range(min(total, 5)):
                 for err in (errno.EACCES, errno.EIO):
-                    case = {'kind': 'fp', 'tree': u['i'], 'op': 'create-fresh',
+                    case = {'kind': 'fp', 'force': u.get('force'), 'tree': u['i'], 'op': 'create-fresh',
                             'class': klass, 'n': n, 'errno': err, 'gen_seed': ctx.seed}
                     del entered[:]
                     with failpoints.Failpoints(fresh, (klass, n), err) as fp:
@@ -624,7 +631,7 @@ def replay(case, ctx):
         rng = common.rng_for(ctx.seed, ID, 'fp', case['tree'])
         with common.Scratch('vf-c06-') as d:
             root = os.path.join(d, 't')
-            tc, lay, info = build_tree(rng, root)
+            tc, lay, info = build_tree(rng, root, case.get('force'))
             subs = [d for d in info['mdirs'] if d]
             with failpoints.Failpoints(root, (case['class'], case['n']),
                                        case['errno']) as fp:
